@@ -65,10 +65,7 @@ def fault_points(sc, hist) -> List[Dict[str, Any]]:
             # an in-process simulator that re-uses its reply dict and forgets to refresh 'time': the
             # stale value is earlier than the step if the previous reply belonged to an earlier time
             prev = last_get.get(sid)
-            # (cache off: with the cache on mosaik keeps a reference to the reply, and a simulator that
-            # re-fills the same dict would also rewrite what is cached for earlier times - another matter)
-            if tr[sid] in ("gated", "stock") and prev is not None and tau is not None and prev[0] < tau[0] \
-                    and not sc["config"].get("cache", True):
+            if tr[sid] in ("gated", "stock") and prev is not None and tau is not None and prev[0] < tau[0]:
                 pts.append({"sid": sid, "req": n, "phase": "reply", "kind": "bad_reply",
                             "func": "get_data", "value": {"what": "stale_time_reused_dict"}})
             if tau is not None:
